@@ -42,7 +42,8 @@ S0(prog, withBtb) ==
     l1i |-> <<>>, l1d |-> <<>>, dbus |-> Bus0, ebus |-> Bus0, wbus |-> Bus0,
     eproc |-> FALSE, epend |-> FALSE, erem |-> 0, epc |-> -1, ehit |-> FALSE,
     wpend |-> FALSE, wcyc |-> 0, toCheck |-> FALSE, expect |-> 0,
-    pendW |-> [r \in {} |-> 0], k |-> 1, done |-> FALSE, bad |-> FALSE, lost |-> {} ]
+    pendW |-> [r \in {} |-> 0], k |-> 1, done |-> FALSE, bad |-> FALSE, lost |-> {},
+    sq |-> <<>> ]   \* sq: lines of the store misses sent to the write unit and not yet written to memory
 
 PendCount(s, r) == IF r \in DOMAIN s.pendW THEN s.pendW[r] ELSE 0
 Hazard(s, i) == \E r \in ReadRegs(i) \ {"zero"} : PendCount(s, r) > 0
@@ -89,8 +90,9 @@ RunIns(s, prog, fin) ==
   IF isRet THEN [st |-> s1, flush |-> FALSE, to |-> 0, ret |-> TRUE]
   ELSE IF storeHit THEN [st |-> [s1 EXCEPT !.eproc = FALSE, !.l1d = TouchLRU(@, ev.a)], flush |-> FALSE, to |-> 0, ret |-> FALSE]
   ELSE
-    LET s2 == [s1 EXCEPT !.eproc = FALSE, !.wbus = BusAdd(@, [kind |-> kind, regs |-> WriteRegs(i), k |-> s.k]),
-                          !.pendW = AddPend(@, WriteRegs(i))]
+    LET s2 == [s1 EXCEPT !.eproc = FALSE, !.wbus = BusAdd(@, [kind |-> kind, regs |-> WriteRegs(i), k |-> s.k, line |-> IF isStore THEN ev.a - (ev.a % 64) ELSE -1]),
+                          !.pendW = AddPend(@, WriteRegs(i)),
+                          !.sq = IF isStore THEN Append(@, ev.a - (ev.a % 64)) ELSE @]
         nextPc == IF s.k < Len(fin.ev) THEN 4 * fin.ev[s.k + 1].i ELSE fin.pc
         pcChange == ev.t
         \* MVP-5 notifyJumpAddressResolved: remember the target, redirect the fetch unit, release the decode unit
@@ -140,6 +142,8 @@ Execute(s, prog, fin) ==
                         ELSE IF s0.withBtb THEN [s0 EXCEPT !.toCheck = FALSE, !.erem = 0]
                         ELSE [s0 EXCEPT !.erem = 0]
               IN IF Hazard(s1, i) THEN Idle([s1 EXCEPT !.erem = 1])
+                 ELSE IF i.op \in LoadOps /\ \E q \in 1 .. Len(s1.sq) : s1.sq[q] = ev.a - (ev.a % 64)
+                      THEN Idle([s1 EXCEPT !.erem = 1])     \* a store to this line still waits for the write unit
                  ELSE IF i.op \in LoadOps
                       THEN IF HitIdx(s1.l1d, ev.a) # {}
                            THEN Idle([s1 EXCEPT !.epend = TRUE, !.ehit = TRUE, !.erem = LatL1, !.l1d = TouchLRU(@, ev.a)])
@@ -153,7 +157,10 @@ Write(s) ==
        IF g.val = <<>> THEN [s EXCEPT !.wbus = g.bus]
        ELSE LET e == g.val[1] IN
             IF e.kind = "reg" THEN [s EXCEPT !.wbus = g.bus, !.pendW = DelPend(@, e.regs)]
-            ELSE IF e.kind = "mem" THEN [s EXCEPT !.wbus = g.bus, !.wpend = TRUE, !.wcyc = LatMem]
+            ELSE IF e.kind = "mem"
+                 THEN LET q == CHOOSE j \in 1 .. Len(s.sq) : s.sq[j] = e.line /\ \A h \in 1 .. (j - 1) : s.sq[h] # e.line
+                      IN [s EXCEPT !.wbus = g.bus, !.wpend = TRUE, !.wcyc = LatMem,
+                                   !.sq = SubSeq(@, 1, q - 1) \o SubSeq(@, q + 1, Len(@))]
             ELSE [s EXCEPT !.wbus = g.bus]
 
 RECURSIVE Drain(_)
@@ -174,7 +181,7 @@ Cycle4(s, prog, fin) ==
           THEN LET d == Drain(b) IN
                [d EXCEPT !.pc = x.to, !.fproc = FALSE, !.fcomplete = FALSE,
                          !.dbus = Bus0, !.ebus = Bus0, !.wbus = Bus0, !.pendW = [r \in {} |-> 0],
-                         !.dpend = FALSE, !.eproc = FALSE, !.erem = IF d.withBtb THEN 0 ELSE @]
+                         !.dpend = FALSE, !.eproc = FALSE, !.erem = IF d.withBtb THEN 0 ELSE @, !.sq = <<>>]
      ELSE IF Complete(b) THEN [b EXCEPT !.done = TRUE]
      ELSE b
 
